@@ -36,6 +36,9 @@ FILTERS = [
     ("path-null", T.binop("Eq", T.path("blog", "title"), T.NULL)),
     # nullable hop (Post.author) followed by a NOT NULL hop (Person.city); true for posts WITHOUT an author as well
     ("path-notnull-hop", T.binop("Or", T.binop("Eq", T.path("author", "city", "name"), T.Str("c1")), T.binop("Eq", T.path("author", "city", "name"), T.NULL))),
+    # a to-one relationship compared as a value (its key): no join needed, the foreign key column of the ROOT row source is compared
+    ("rel-null", T.binop("Eq", T.I("blog"), T.NULL)),
+    ("rel-key", T.binop("And", T.binop("NotEq", T.I("author"), T.NULL), T.binop("Eq", T.I("blog"), T.Int(1)))),
     ("lambda", T.lam(T.I("comments"), "Any", "c", T.binop("Gt", T.path("c", "score"), T.Int(1)))),
     ("lambda-and-path", T.binop("And", T.lam(T.I("comments"), "All", "c", T.binop("Gt", T.path("c", "score"), T.Int(1))),
                                 T.binop("NotEq", T.path("author", "name"), T.Str("zz")))),
@@ -77,6 +80,9 @@ def sa_bases(R, legacy):
         ("outerjoin-owner-where", False, lambda: getattr(start().outerjoin(Post.owner), w)(Post.score >= 0)),
         ("outerjoin-blog", False, lambda: start().outerjoin(Post.blog)),
         ("order-by", True, lambda: start().order_by(Post.title.desc(), Post.id)),
+        # the root entity itself is an ALIAS: the filter's columns must bind to that alias, not to the plain table
+        ("aliased-root", False, lambda: (ses.query(sa.orm.aliased(Post, name="p_root")) if legacy else sa.select(sa.orm.aliased(Post, name="p_root")))),
+        ("aliased-root-where", False, lambda: (lambda P_: getattr(ses.query(P_) if legacy else sa.select(P_), w)(P_.score >= 1))(sa.orm.aliased(Post, name="p_root"))),
         ("join-blog-where", False, lambda: getattr(start().join(Post.blog), w)(Blog.title != "b2")),
         ("join-both-order", True, lambda: start().join(Post.blog).join(Post.author).order_by(Post.id.desc())),
     ]
